@@ -52,6 +52,18 @@ fn check_id(id: u32, out: &mut CaseOut) {
         }),
         Err(e) => out.violate("C20", "parse_canonical_err", format!("try_from('{exp}') = Err({e})")),
     }
+    // parsing is a function of the text alone: texts that EXTEND the one just parsed (one more digit, a
+    // blank, a letter) are judged by the grammar, whatever was parsed before; then the id again
+    if id % 5 == 0 || id > 9_999_990 {
+        out.bucket("extension_of_the_text_parsed_just_before");
+        for ext in ["0", "7", " ", "x", "\t1"] {
+            check_str(&format!("{exp}{ext}"), out);
+        }
+        match HpoTermId::try_from(exp.as_str()) {
+            Ok(back) => out.check(back.as_u32() == id, "C20", "parse_canonical", || format!("try_from('{exp}') = {} after parsing its extensions", back.as_u32())),
+            Err(e) => out.violate("C20", "parse_canonical_err", format!("try_from('{exp}') = Err({e}) after parsing its extensions")),
+        }
+    }
     // the other parsing routes for a VALID rendering: From<String> and comparison with text
     let via_string = guard(|| (HpoTermId::from(text.clone()).as_u32(), t == text.as_str(), t == *text.as_str()));
     match via_string {
